@@ -94,6 +94,8 @@ def run(tier):
     for j in common.strings_upto(["a", "\n", "\r", "\x0c", " ", " "], 3 if tier == "quick" else 4):
         js = "".join(j)
         blk.append('"""' + js + '""" a ?')
+        blk.append('"""' + js + '""" a "b"')
+        blk.append('{ f(x: """' + js + '""") # c\n }')
         blk.append('#' + js + '\n"""' + js + '"""\r\n a')
     long_line = "{ " + "a " * 70 + "  ? }"
     extra = ['{\n?', '" " ?', '" " ?', "{\r\n?", "{\r?", "a\r", "{ a\x0c}", long_line,
